@@ -5,8 +5,8 @@ package checks
 import (
 	"fmt"
 	"math"
-	"os"
 	"math/big"
+	"os"
 
 	sdk "github.com/cosmos/cosmos-sdk/types"
 	"github.com/ethereum/go-ethereum/common"
